@@ -2987,6 +2987,22 @@ class C17(Prop):
             i = r.choice(ck)
             ops = [['childroot', i], ['elem', i], ['childroot', r.choice(ck)], ['root'], ['sub', i, ['pop']] if False else ['len'], ['childroot', i]]
             out.append(show(['partial', t, v, ['pos', base | i]] + ops))
+        # the read-only iterator of a packed sequence stopped exactly at the boundary of the chunk BEFORE a summarised one
+        for _ in range(max(10, self.n(tier) // 10)):
+            e = r.choice(['u64', 'u16', 'u8', 'u128', 'bool', 'u256'])
+            per = 32 // UINT_W.get(e, 1)
+            chunks = r.choice([3, 4, 5, 8])
+            n_ = per * chunks - r.choice([0, 0, 1])
+            kind_ = r.choice(['vec', 'list'])
+            t = ['vec', e, n_] if kind_ == 'vec' else ['list', e, per * r.choice([8, 16])]
+            v = ['s'] + [g.val(e, 1) for _ in range(n_)]
+            cc = chunks if kind_ == 'vec' else (t[2] + per - 1) // per
+            d = _get_depth(cc)
+            # (a chunk is a leaf already: the PAIR above chunks k, k+1 is summarised, k even)
+            k_ = r.choice([q for q in range(2, chunks, 2)] or [2])
+            pos = ['pos', (((1 << d) | k_) if kind_ == 'vec' else ((2 << d) | k_)) >> 1]
+            ops = [['roiterk', per * k_], ['iterk', per * k_], ['roiterk', per * k_ + 1], ['roiterk', max(per * k_ - 1, 0)], ['len']]
+            out.append(show(['partial', t, v, pos] + ops))
         # pop / overwrite of an element whose own subtree is summarised (byte arrays are read as a whole when read, but a pop
         # or an overwrite does not need the old content)
         for _ in range(self.n(tier) // 8):
@@ -3029,7 +3045,7 @@ class C17(Prop):
             if ops:
                 out.append(show(['partial', t, v, pos] + ops + [['read'], ['root']]))
         # mutations through the value view of a union whose value has a summary elsewhere
-        for _ in range(self.n(tier) // 8):
+        for _ in range(self.n(tier) // 4):
             opt = r.choice([['list', 'u64', 64], ['cont', 'u64', ['list', 'u8', 40], 'u16', ['Bv', 48]], ['bl', 1024], ['vec', 'u16', 64]])
             u = ['union'] + (['none'] if r.random() < 0.5 else []) + [opt]
             uv = ['u', len(u) - 2, g.val(opt, 40) if r.random() < 0.5 else (g.max_val(opt) or g.val(opt, 40))]
